@@ -420,6 +420,10 @@ OkC05(m, o) ==
     /\ \A i \in DOMAIN o.ev :
           (o.ev[i].k = "recvd") => /\ o.op = "recv" /\ o.arg.d.ok
                                    /\ o.ev[i].cls = o.arg.d.cls /\ o.ev[i].id = o.arg.d.id
+                                   \* ... with exactly the attributes the ordering rule admits (nothing
+                                   \* that stands behind the integrity attributes / FINGERPRINT)
+                                   /\ (("nadm" \in DOMAIN o.arg.d /\ "nattrs" \in DOMAIN o.ev[i])
+                                         => o.ev[i].nattrs = o.arg.d.nadm)
                                    /\ o.ev[i].cls \in {"success", "error", "indication"}
     \* direct leak check through the snapshot hook: table and timer entries are exactly the
     \* pending requests, one timer entry each
